@@ -1,7 +1,7 @@
 ------------------------------ MODULE RelTrace ------------------------------
 (* Relational trace validation: each line holds the projected products of two real executions and the parameters    *)
 (* of the relation that must hold between them; total verdicts.                                                       *)
-EXTENDS Relations, Json, IOUtils, TLC
+EXTENDS Relations, PandoraParallel, Json, IOUtils, TLC
 
 NaN == 1000000007
 Cases == ndJsonDeserialize(IOEnv.TRACE_FILE)
@@ -32,7 +32,19 @@ RangeRel(e) ==
    IN [failed |-> (IF bad = {} THEN {} ELSE {e.clause}) \cup (IF e.attr # <<e.glo, e.ghi>> THEN {"stored_disparity_interval"} ELSE {}),
        compared |-> Cardinality(validpx),
        detail |-> IF bad = {} THEN <<>> ELSE LET x == One(bad) IN <<x[1], x[2], e.d3[x[1]][x[2]], lo(x), hi(x), e.vm[x[1]][x[2]]>>]
-Verdict(e) == IF e.kind \in {"slice", "grid"} THEN Rel3D(e) ELSE IF e.kind = "range" THEN RangeRel(e) ELSE Rel2D(e)
+\* C18: the digests of the products of one (pipeline, input) under different thread counts / histories are all equal
+DigestRel(e) ==
+   LET ds == {e.digests[k] : k \in 1..Len(e.digests)}
+   IN [failed |-> IF Cardinality(ds) = 1 THEN {} ELSE {"same_products"}, compared |-> Len(e.digests),
+       detail |-> IF Cardinality(ds) = 1 THEN <<>> ELSE <<{k \in 1..Len(e.digests) : e.digests[k] # e.digests[1]}>>]
+\* C18: footprint of one execution of a parallel kernel: iteration k reads e.iters[k].r and writes e.iters[k].w (cell numbers)
+FootprintRel(e) ==
+   LET R == [k \in 1..Len(e.iters) |-> {e.iters[k].r[j] : j \in 1..Len(e.iters[k].r)}]
+       W == [k \in 1..Len(e.iters) |-> {e.iters[k].w[j] : j \in 1..Len(e.iters[k].w)}]
+   IN [failed |-> IF RaceFreeFootprint(R, W) THEN {} ELSE {"race_free"}, compared |-> Len(e.iters),
+       detail |-> IF RaceFreeFootprint(R, W) THEN <<>> ELSE LET c == One(Conflicts(R, W)) IN <<c[1], c[2], W[c[1]] \cap (W[c[2]] \cup R[c[2]])>>]
+Verdict(e) == IF e.kind \in {"slice", "grid"} THEN Rel3D(e) ELSE IF e.kind = "range" THEN RangeRel(e)
+              ELSE IF e.kind = "digest" THEN DigestRel(e) ELSE IF e.kind = "footprint" THEN FootprintRel(e) ELSE Rel2D(e)
 
 VARIABLE i
 Init == i = 1
